@@ -166,12 +166,6 @@ theorem stepFresh_adjust (c0 : Container) (st st' : State) (p : Plugin) (a : Adj
 
 /-! ### the simulation along a creation request -/
 
-/-- the guards on one plugin's adjustment for the view agreement -/
-structure ViewGuard (c0 : Container) (a : Adjustment) : Prop where
-  wf : WellFormed a
-  limit : limitNonzero a = true
-  huge : hugeFresh c0 a = true
-
 /-- **Along a creation request**: if the view simulates the spec `x` before, and the plugins'
     adjustments applied to `x` one after another give `x'`, the view after simulates `x'`. -/
 theorem run_viewSim {ext : Generate.Externals} {bad : List Str}
@@ -260,6 +254,15 @@ theorem viewSim_init (c0 : Container) (h : SpecWF (toSpec c0)) :
   · intro e hm
     obtain ⟨n, v, hs, _⟩ := he.split e hm
     exact ⟨n, v, hs⟩
+
+/-- every container simulates its own spec -/
+theorem viewSim_self (c : Container) (h : SpecWF (toSpec c)) : ViewSim c (toSpec c) := by
+  obtain ⟨hm, hd, he⟩ := specWF_parts _ h
+  refine ⟨⟨rfl, rfl, rfl, rfl, rfl, fun _ => rfl, fun _ _ => rfl, List.Perm.refl _, hm, rfl, rfl, rfl, rfl,
+    fun _ => rfl, rfl⟩, ?_, he, hd⟩
+  intro e hm
+  obtain ⟨n, v, hs, _⟩ := he.split e hm
+  exact ⟨n, v, hs⟩
 
 theorem hugeHeld_init (c0 : Container) : HugeHeld c0 (initCreate c0) := by
   intro z hz; exact .inl hz
